@@ -14,8 +14,29 @@ C09 = {"clean-strand-not-left-alone", "not-sorted-unique", "candidate-fails-chec
 C10 = {"termination-bound", "raises", "malformed-result", "lookup-bound"}
 
 
-def run_repair(acc, start, dna_digits, k, vt, indel, heap, log=False):
+_ACC = {}
+
+
+def shared_accessor(live):
+    """One accessor object per graph and process: consecutive repair calls of a worker share the object, as a user's calls do."""
+    key = tuple(tuple(x) for x in live)
+    if key not in _ACC:
+        if len(_ACC) > 64:
+            _ACC.clear()
+        _ACC[key] = (impl.accessor(live), impl.accessor(live))
+    acc, snap = _ACC[key]
+    if not numpy.array_equal(acc, snap):          # a call edited its argument: do not let that leak into the next case
+        acc = snap.copy()
+        _ACC[key] = (acc, snap)
+    return acc
+
+
+def run_repair(acc, start, dna_digits, k, vt, indel, heap, log=False, prior=False):
     s = impl.dna(dna_digits)
+    if prior:
+        # history: the same strand was repaired just before on the same objects with the other has_indel setting and without a check;
+        # nothing of that call may show in the judged one
+        impl.call(dsw.repair_dna, s, acc, start, k, has_indel=not bool(indel), heap_size=100, _budget=len(s) + 1, _alarm=30)
     kw = dict(has_indel=bool(indel))
     if vt:
         kw["vt_check"] = impl.dna(vt)
@@ -39,8 +60,9 @@ def run_repair(acc, start, dna_digits, k, vt, indel, heap, log=False):
 
 def replay_rec(rec):
     """Flow A for one MC_Repair record -> list of (clause, expected, observed) over all three properties + conformance notes."""
-    acc = impl.accessor(rec["live"])
-    o = run_repair(acc, rec["start"], rec["dna"], rec["k"], rec["vt"], rec["indel"], rec["heap"])
+    acc = shared_accessor(rec["live"])
+    o = run_repair(acc, rec["start"], rec["dna"], rec["k"], rec["vt"], rec["indel"], rec["heap"],
+                   prior=(len(rec["dna"]) + sum(rec["dna"]) + rec["start"]) % 2 == 0)
     bad = []
     n = len(rec["dna"])
     if o["out"] == "budget" or o["ticks"] > n:
